@@ -24,4 +24,10 @@ CLAIMS = {
           "the sink type is used only through std::io::Write; Muxer<W>/MuxerBuilder<W>: Send<=W: Send and Sync<=W: Sync for all W (solver query in a parameter environment, non-vacuous), FragmentedMuxer: Send+Sync; "
           "finish/flush/finish_with_stats/finish_in_place are single pass-through delegations, builder aliases have alpha-equal bodies, codec None yields no audio track.",
   "note": "Trusted: classification of external callees (lib/mx/externals.py), rustc trait solver. One reasoned exception: Metadata::with_current_time (explicit request for 'now' as input). Not decided: f64 accumulation of encode_* vs explicit timestamps (numeric)."},
+ "C05": {
+  "technique": "interprocedural error-path purity (store inventory x CFG reachability to Err/`?` exits) on MIR",
+  "text": "Sufficient structural condition for C05, decided for all histories, rejection reasons and states: in every fallible function that receives muxer state by &mut on the frame-writing paths "
+          "(progressive and fragmented, incl. the encode_* convenience forms) no store to that state lies on any CFG path ending in an Err/`?` exit; a failing call therefore executes no state store. "
+          "Three genuine defects found by this rule on the pinned tree were repaired (fix: commits, known_findings.json).",
+  "note": "Path-insensitive (plain CFG reachability; stores of a fallible callee are placed on its Continue edge). State = memory reachable from the &mut receiver; the thread-local invariant log is excluded because C17.R2 shows muxing never reads it."},
 }
